@@ -52,6 +52,7 @@ type RecClient struct {
 	// PosSampler returns the replica's current position for a database name;
 	// set by the cluster so LTX frames can record the position before apply.
 	PosSampler func(name string) [2]uint64
+	posMu      sync.RWMutex // guards PosSampler (set after the node has started streaming)
 
 	// Before is consulted before each outgoing call (op = stream|halt|unhalt|commit);
 	// a non-nil error fails the call without sending it.
@@ -305,7 +306,10 @@ func (s *recStream) parse() {
 			name := string(s.buf[16 : 16+nameN])
 			s.buf = s.buf[16+nameN:]
 			s.cur = FrameEvent{Type: 1, Name: name}
-			if f := s.c.PosSampler; f != nil {
+			s.c.posMu.RLock()
+			f := s.c.PosSampler
+			s.c.posMu.RUnlock()
+			if f != nil {
 				s.cur.PosBefore = map[string][2]uint64{name: f(name)}
 			}
 			s.inLTX = true
@@ -355,4 +359,11 @@ func (s *recStream) parse() {
 			return
 		}
 	}
+}
+
+// SetPosSampler installs the position sampler (safe while streams are running).
+func (c *RecClient) SetPosSampler(f func(name string) [2]uint64) {
+	c.posMu.Lock()
+	c.PosSampler = f
+	c.posMu.Unlock()
 }
